@@ -706,8 +706,10 @@ def dag_edges(rng, shape, n):
     return sorted(E)
 
 
-def graph_doc(rng, shape, n, same_bare_names=False, cyclic=False, kinds=('>', '<', '-')):
-    nm = Namer(rng, ('bare', 'bare', 'space', 'unicode'))
+def graph_doc(rng, shape, n, same_bare_names=False, cyclic=False, kinds=('>', '<', '-'), case_twins=None):
+    nm = Namer(rng, ('bare', 'bare', 'space', 'unicode'), coin=True)
+    if case_twins is None:
+        case_twins = rng.random() < 0.15
     doc = am.Doc()
     schemas = ['public', 'public', nm('s'), nm('s')]
     shared = nm('t', 'bare')
@@ -717,6 +719,15 @@ def graph_doc(rng, shape, n, same_bare_names=False, cyclic=False, kinds=('>', '<
         if same_bare_names and i < len(set(schemas)):
             sch = sorted(set(schemas))[i]
             name = shared          # equal bare names in different schemas
+        if case_twins and i >= 1 and i <= 2 and not same_bare_names and doc.tables[0].name.swapcase() != doc.tables[0].name:
+            # names that differ only in letter case (in the same schema): two different tables
+            name = doc.tables[0].name.swapcase() if i == 1 else doc.tables[0].name.capitalize()
+            sch = doc.tables[0].schema
+            if any(x.name == name and x.schema == sch for x in doc.tables):
+                name = nm('t')
+            else:
+                doc.classes.add('case-twin')
+                nm.all_issued.add(name)
         t = am.Table(sch, name)
         t.columns.append(am.Column(nm('id', 'bare'), am.ColType('plain', 'int'), pk=True))
         doc.tables.append(t)
